@@ -102,7 +102,7 @@ def _tb_site(e):
 def replay_failure(po, shape, clause, values, seed, tries=150):
     """Replay a counter-model natively; search around it if it does not reproduce at the point."""
     results, rejected, exc, S = run_native(po, shape, values)
-    hit = _clause_false(results, clause) or _exc_hit(clause, exc)
+    hit = _clause_false(results, clause, exc) or _exc_hit(clause, exc)
     info = {"at_model": {"clause_false": hit, "rejected_by_precondition": rejected, "native_exception": exc}}
     if hit:
         return True, values, info
@@ -115,14 +115,14 @@ def replay_failure(po, shape, clause, values, seed, tries=150):
             else:
                 pert[k] = _perturb(v, rng, S.kinds.get(k))
         results, rejected, exc2, _ = run_native(po, shape, pert)
-        if not rejected and (_clause_false(results, clause) or _exc_hit(clause, exc2)):
+        if not rejected and (_clause_false(results, clause, exc2) or _exc_hit(clause, exc2)):
             info["search"] = {"tries": i + 1, "found": True}
             return True, pert, info
     # the model's values of contracted callees (uninterpreted results) need not be realisable by the real callee:
     # fall back to sampling the PO's own input ranges natively
     for i in range(tries * 2):
         results, rejected, exc2, S2 = run_native(po, shape, None, rng)
-        if not rejected and (_clause_false(results, clause) or _exc_hit(clause, exc2)):
+        if not rejected and (_clause_false(results, clause, exc2) or _exc_hit(clause, exc2)):
             info["search"] = {"tries": tries + i + 1, "found": True, "by": "range sampling"}
             return True, {k: _serx(v) for k, v in S2.inputs.items()}, info
     info["search"] = {"tries": tries * 3, "found": False}
@@ -157,20 +157,22 @@ def _exc_hit(clause, exc):
     return clause.split(":", 1)[1] in exc
 
 
-def _clause_false(results, clause):
+def _clause_false(results, clause, exc=None):
     if clause.startswith("no-exception-escapes:"):
         return False
     if not any(n == clause for n, _, _ in results):
         # the failed obligation has no native counterpart (loop invariant, callee precondition): any
-        # postcondition of the same PO failing natively is the failing input for it
-        return any(not ok for n, ok, _ in results)
+        # postcondition of the same PO failing natively, or an exception escaping the real code, is the failing input for it
+        return any(not ok for n, ok, _ in results) or bool(exc)
     return any(n == clause and not ok for n, ok, _ in results)
 
 
-def run_po_task(prop, po_index, shape, tier, seed):
-    """Worker: one PO x shape.  Returns a JSON-able record."""
+def run_po_task(prop, po_index, shape, tier, seed, prefixes=None, split_s=None):
+    """Worker: one PO x shape (or, with `prefixes`, the sub-trees of its path tree below the given decision prefixes).
+    With split_s the exploration stops after that many seconds and hands the unexplored prefixes back in rec["pending"].
+    Returns a JSON-able record."""
     t0 = time.time()
-    rec = {"po": None, "shape": shape, "error": None}
+    rec = {"po": None, "shape": shape, "error": None, "pending": [], "key": (po_index, json.dumps(shape, sort_keys=True, default=str))}
     try:
         pos, _ = _load(prop)
         po = pos[po_index]
@@ -178,6 +180,7 @@ def run_po_task(prop, po_index, shape, tier, seed):
         rec["strength"] = po.strength
         rec["note"] = po.note
         from .engine import Exploration, discharge, STATS, check, FEAS_RLIMIT, FEAS_TIMEOUT_MS
+        STATS.__init__()
         from .api import SymScenario
         from .interp import SOURCES
         import z3
@@ -196,7 +199,8 @@ def run_po_task(prop, po_index, shape, tier, seed):
         cfg = dict(po.config)
         cfg["contracts"] = dict(po.contracts)
         cfg["loops"] = dict(po.loops)
-        ex = Exploration(body, cfg, max_paths=cfg.get("max_paths", 4000)).run()
+        ex = Exploration(body, cfg, max_paths=cfg.get("max_paths", 4000), initial_work=prefixes, split_after_s=split_s).run()
+        rec["pending"] = ex.pending
         rec["paths"] = ex.paths
         rec["infeasible"] = ex.infeasible
         rec["unsupported"] = ex.unsupported[:10]
@@ -247,7 +251,7 @@ def run_po_task(prop, po_index, shape, tier, seed):
         rec["covers"] = ex_covers(ex, po)
         # native sampling of the same contract text on the real code (sanity net, DESIGN §8.2)
         ns = cfg.get("native_samples", {"quick": 20, "thorough": 200}).get(tier, 20)
-        rec["native"] = native_sampling(po, shape, seed, ns)
+        rec["native"] = native_sampling(po, shape, seed, ns) if prefixes is None else {"ran": 0, "rejected": 0, "clause_failures": [], "exceptions": []}
     except BaseException as e:
         rec["error"] = "".join(traceback.format_exception(type(e), e, e.__traceback__))[-3000:]
     rec["wall_s"] = time.time() - t0
@@ -372,17 +376,74 @@ def check_property(prop, tier, seed, jobs=None, only=None):
             continue
         for sh in _shape_list(po, tier):
             tasks.append((i, sh))
-    results = []
-    jobs = jobs or min(16, max(1, len(tasks)))
-    if jobs == 1 or len(tasks) <= 1:
+    jobs = jobs or 16
+    split_s = float(os.environ.get("PYVC_SPLIT_S", 12))
+    parts = []
+    if jobs == 1:
         for i, sh in tasks:
-            results.append(run_po_task(prop, i, sh, tier, seed))
+            parts.append(run_po_task(prop, i, sh, tier, seed))
     else:
+        from concurrent.futures import wait, FIRST_COMPLETED
         with ProcessPoolExecutor(max_workers=jobs) as pool:
-            futs = [pool.submit(run_po_task, prop, i, sh, tier, seed) for i, sh in tasks]
-            for f in futs:
-                results.append(f.result())
+            live = {pool.submit(run_po_task, prop, i, sh, tier, seed, None, split_s): (i, sh) for i, sh in tasks}
+            spawned = {}
+            while live:
+                done, _ = wait(list(live), return_when=FIRST_COMPLETED)
+                for f in done:
+                    i, sh = live.pop(f)
+                    r = f.result()
+                    parts.append(r)
+                    pend = r.get("pending") or []
+                    if pend:
+                        k = r["key"]
+                        spawned[k] = spawned.get(k, 0) + len(pend)
+                        # one sub-task per pending sub-tree while there are idle workers, larger chunks otherwise
+                        chunk = 1 if len(live) + len(pend) <= 2 * jobs else max(1, len(pend) // jobs)
+                        for a in range(0, len(pend), chunk):
+                            live[pool.submit(run_po_task, prop, i, sh, tier, seed, pend[a:a + chunk], split_s * 2)] = (i, sh)
+    results = merge_parts(parts)
     return summarise(prop, tier, seed, results, time.time() - t0, only)
+
+
+def merge_parts(parts):
+    """merge the records of the sub-tasks of one PO x shape (disjoint sub-trees of its path tree)"""
+    out, order = {}, []
+    for r in parts:
+        k = r.get("key") or (r.get("po"), json.dumps(r.get("shape"), sort_keys=True, default=str))
+        k = (k[0], k[1]) if isinstance(k, (list, tuple)) else k
+        if k not in out:
+            out[k] = r
+            order.append(k)
+            r["subtasks"] = 1
+            continue
+        a = out[k]
+        a["subtasks"] += 1
+        if r.get("error"):
+            a["error"] = (a.get("error") or "") + r["error"]
+            continue
+        if a.get("error"):
+            continue
+        for name, c in r["clauses"].items():
+            d = a["clauses"].setdefault(name, {"kind": c["kind"], "instances": 0, "unsat": 0, "sat": 0, "unknown": 0, "seconds": 0.0, "trivial": 0})
+            for f in ("instances", "unsat", "sat", "unknown", "seconds", "trivial"):
+                d[f] += c[f]
+            if "reason_unknown" in c:
+                d["reason_unknown"] = c["reason_unknown"]
+        for f in r["failures"]:
+            if not any(g["clause"] == f["clause"] for g in a["failures"]):
+                a["failures"].append(f)
+        a["unsupported"] = (a["unsupported"] + r["unsupported"])[:10]
+        for f in r["functions"]:
+            if f not in a["functions"]:
+                a["functions"].append(f)
+        for x, v in r["assumptions"].items():
+            a["assumptions"][x] = a["assumptions"].get(x, 0) + v
+        for lab, ok in r.get("covers", {}).items():
+            a["covers"][lab] = a["covers"].get(lab, False) or ok
+        for f in ("paths", "infeasible", "solver_s", "feas_calls", "vc_calls", "unknown_feas"):
+            a[f] = a.get(f, 0) + r.get(f, 0)
+        a["wall_s"] = max(a["wall_s"], r["wall_s"])
+    return [out[k] for k in order]
 
 
 def summarise(prop, tier, seed, results, wall, only=None):
